@@ -109,7 +109,54 @@ def run(ctx):
     for n in others:
         ctx.node_bad("R1", f, n, "timed_out is assigned something other than True inside the search")
     ctx.floor("R1", "sites setting timed_out", len(sets), 1)
-    polls = [w for w in ast.walk(f.node) if isinstance(w, ast.While) and "time.time()" in U(w.test)]
+    def _deadline_name(e_, at):
+        """D when the comparison e_ is `clock > D` / `D < clock` and every definition of D reaching `at` is None or clock + timeout"""
+        if not (isinstance(e_, ast.Compare) and len(e_.ops) == 1 and isinstance(e_.ops[0], (ast.Lt, ast.Gt, ast.LtE, ast.GtE))):
+            return None
+        sides = [e_.left, e_.comparators[0]]
+        clock_side = [x for x in sides if any(isinstance(c_, ast.Call) and U(c_.func).startswith("time.") for c_ in ast.walk(x))]
+        name_side = [x for x in sides if isinstance(x, ast.Name)]
+        if len(clock_side) != 1 or len(name_side) != 1:
+            return None
+        later = (isinstance(e_.ops[0], (ast.Gt, ast.GtE)) and clock_side[0] is e_.left) or (
+            isinstance(e_.ops[0], (ast.Lt, ast.LtE)) and clock_side[0] is e_.comparators[0])
+        if not later:
+            return None
+        D = name_side[0].id
+        try:
+            ds = C.flow_of(f).reaching(at, D)
+        except KeyError:
+            return None
+
+        def is_deadline_value(v):
+            if isinstance(v, ast.Constant) and v.value is None:
+                return True
+            if isinstance(v, ast.IfExp):
+                return is_deadline_value(v.body) and is_deadline_value(v.orelse)
+            return isinstance(v, ast.BinOp) and isinstance(v.op, ast.Add) and tmo in pm.names_in(v) and any(
+                isinstance(c_, ast.Call) and U(c_.func).startswith("time.") for c_ in ast.walk(v))
+        if ds and all(d_.kind == "assign" and d_.value is not None and is_deadline_value(d_.value) for d_ in ds):
+            return D
+        return None
+
+    def _is_timeout_test(test, at):
+        """the test is (a conjunction of) a deadline comparison and "a time-out is in force" guards only"""
+        parts = list(test.values) if isinstance(test, ast.BoolOp) and isinstance(test.op, ast.And) else [test]
+        texts = [U(p_) for p_ in parts]
+        old_form = any("time.time()" in t_ and tmo in t_ for t_ in texts) and all(
+            ("time.time()" in t_) or t_ == "%s != -1" % tmo for t_ in texts)
+        if old_form:
+            return True
+        ds_ = [_deadline_name(p_, at) for p_ in parts]
+        names_ = [d_ for d_ in ds_ if d_]
+        if len(names_) != 1:
+            return False
+        rest = [p_ for p_, d_ in zip(parts, ds_) if not d_]
+        return all(U(r_) in ("%s is not None" % names_[0], "%s != -1" % tmo) for r_ in rest)
+
+    polls = [w for w in ast.walk(f.node) if isinstance(w, ast.While) and ("time.time()" in U(w.test) or (
+        any(isinstance(c_, ast.Call) and isinstance(c_.func, ast.Attribute) and c_.func.attr == "is_alive" for c_ in ast.walk(w))
+        and any(isinstance(i_, ast.If) and _is_timeout_test(i_.test, i_) for i_ in ast.walk(w))))]
     # a polling loop that lives in a helper which cannot be expanded in place (it returns from inside the loop)
     poll_helpers = []
     if not polls:
@@ -133,6 +180,39 @@ def run(ctx):
         if deadline and ("%s != -1" % tmo, True) in facts:
             ok = True
             why = "under the deadline test `%s` (and timeout != -1)" % deadline[0]
+        if not ok:
+            # the same with a deadline computed beforehand: `clock > D` where D is `clock + timeout` (or None when there is
+            # no timeout) and D is known not to be None / the timeout is known to be in force
+            nfn = C.norm_fact_nodes(n)
+            for e_, p_ in nfn:
+                if not (p_ and isinstance(e_, ast.Compare) and len(e_.ops) == 1 and isinstance(e_.ops[0], (ast.Lt, ast.Gt, ast.LtE, ast.GtE))):
+                    continue
+                sides = [e_.left, e_.comparators[0]]
+                clock_side = [x for x in sides if any(isinstance(c_, ast.Call) and U(c_.func).startswith("time.") for c_ in ast.walk(x))]
+                name_side = [x for x in sides if isinstance(x, ast.Name)]
+                if len(clock_side) != 1 or len(name_side) != 1:
+                    continue
+                later = (isinstance(e_.ops[0], (ast.Gt, ast.GtE)) and clock_side[0] is e_.left) or (
+                    isinstance(e_.ops[0], (ast.Lt, ast.LtE)) and clock_side[0] is e_.comparators[0])
+                D = name_side[0].id
+                try:
+                    ds = C.flow_of(f).reaching(n, D)
+                except KeyError:
+                    ds = []
+                def is_deadline_value(v):
+                    if isinstance(v, ast.Constant) and v.value is None:
+                        return True
+                    if isinstance(v, ast.IfExp):
+                        return is_deadline_value(v.body) and is_deadline_value(v.orelse)
+                    return isinstance(v, ast.BinOp) and isinstance(v.op, ast.Add) and tmo in pm.names_in(v) and any(
+                        isinstance(c_, ast.Call) and U(c_.func).startswith("time.") for c_ in ast.walk(v))
+                vals_ok = bool(ds) and all(d_.kind == "assign" and d_.value is not None and is_deadline_value(d_.value) for d_ in ds)
+                in_force = any((not p2) and C.is_none_test(e2) is not None and C.is_none_test(e2)[0] == D for e2, p2 in nfn
+                               if isinstance(e2, ast.Compare)) or (C.CT("%s != -1" % tmo), True) in C.norm_facts(n) or (
+                    C.CT("%s == -1" % tmo), False) in C.norm_facts(n)
+                if later and vals_ok and in_force:
+                    ok = True
+                    why = "under the deadline test `%s` with %s = clock + %s" % (U(e_), D, tmo)
         if ok:
             ctx.node_ok("R1", f, n, "timed_out = True on a cut-short path: " + why)
         elif poll_helpers and any((not p) and any(h.split(".")[1] in t for h in poll_helpers) for t, p in facts):
@@ -141,19 +221,39 @@ def run(ctx):
             ctx.node_bad("R1", f, n, "timed_out is set on a path that is not a time-out (facts: %s): the warning would "
                          "be shown although the search was complete" % [t for t, p in facts if p])
     # the polling loop's normal exit must not fall into the else branch, and the test uses <= timeout
+    pflow = C.flow_of(f)
+
+    def _nobody_alive(node, stop):
+        """is 'no worker is alive' among the facts at node? (directly, or through a local that holds `any(.. is_alive ..)`)"""
+        for e, p in C.norm_fact_nodes(node, stop=stop):
+            e2 = pflow.subst(e) if isinstance(e, ast.Name) else e
+            if (not p) and "is_alive()" in U(e2):
+                return True
+        return False
+
     for w in polls:
-        ctx.check(any(n in w.orelse for n in sets), "R1", "exhaustion of the polling loop sets timed_out", f.where(w),
-                  "when the polling loop runs out of time (its else branch) timed_out is not set: workers are killed and "
-                  "the result is partial, but no warning is shown", f.qname, "poll exhaustion sets flag")
-        cmp = C.compare_parts(w.test)
-        ok = cmp is not None and cmp[1] in ("LtE", "Lt") and U(cmp[2]) == tmo and "time.time() - " in U(cmp[0])
-        ctx.check(ok, "R1", "polling continues while elapsed <= timeout", f.where(w), "polling condition is %s" % U(w.test),
-                  f.qname, "poll condition")
-        brk = [b for b in ast.walk(w) if isinstance(b, ast.Break)]
-        done = [b for b in brk if any((not p) and "is_alive()" in U(e) for e, p in C.facts_at(b, stop=w))]
-        ctx.check(len(brk) == 1 and len(done) == 1, "R1", "the polling loop is left early only when no worker is alive", f.where(w),
+        const_true = isinstance(w.test, ast.Constant) and w.test.value is True
+        if not const_true:
+            # `while <still in time>: ... else: <time-out>`: the exhaustion branch sets the flag, the test is "elapsed <= timeout"
+            ctx.check(any(n in w.orelse for n in sets), "R1", "exhaustion of the polling loop sets timed_out", f.where(w),
+                      "when the polling loop runs out of time (its else branch) timed_out is not set: workers are killed and "
+                      "the result is partial, but no warning is shown", f.qname, "poll exhaustion sets flag")
+            cmp = C.compare_parts(w.test)
+            ok = cmp is not None and cmp[1] in ("LtE", "Lt") and U(cmp[2]) == tmo and "time.time() - " in U(cmp[0])
+            ctx.check(ok, "R1", "polling continues while elapsed <= timeout", f.where(w), "polling condition is %s" % U(w.test),
+                      f.qname, "poll condition")
+        # every way out of the loop is "no worker is alive" or the time-out path (timed_out set on the way)
+        brk = [b_ for b_ in ast.walk(w) if isinstance(b_, ast.Break) and C.enclosing_loop(b_) is w]
+        done = [b_ for b_ in brk if _nobody_alive(b_, w)]
+        timed = [b_ for b_ in brk if b_ not in done and any(C.in_subtree(s_, w) and cfg.dominates(s_, b_) for s_ in sets)]
+        other = [b_ for b_ in brk if b_ not in done and b_ not in timed]
+        ctx.check(bool(done) and not other and (const_true or len(brk) == 1), "R1", "the polling loop is left early only when no worker is alive", f.where(w),
                   "the polling loop breaks on another condition (the else branch - time-out - is skipped wrongly or the "
                   "search is reported complete while workers run)", f.qname, "poll break")
+        if const_true:
+            ctx.check(bool(timed), "R1", "exhaustion of the polling loop sets timed_out", f.where(w),
+                      "the polling loop has no exit on which the time-out is recorded: it waits for the workers however long they take",
+                      f.qname, "poll exhaustion sets flag")
     # early exits from search loops
     roots = [l for l in ast.walk(f.node) if isinstance(l, ast.For) and C.calls_to(l, "all_simple_paths")]
     for l in roots:
@@ -176,8 +276,9 @@ def run(ctx):
         kw = {k.arg: U(k.value) for k in c[0].keywords} if c else {}
         kg = [a for a in ast.walk(insp.node) if isinstance(a, ast.Assign) and pm.call_name(a.value) == "KernelDG"] if True else []
         gname = U(kg[0].targets[0]) if kg else "?"
-        ctx.check(kw.get("lcd_warning") == "%s.timed_out" % gname, "R2", "%s(lcd_warning=<graph>.timed_out)" % nm, insp.where(),
-                  "%s receives lcd_warning=%s" % (nm, kw.get("lcd_warning")), insp.qname, "%s lcd_warning" % nm)
+        eff = C.effective_argument(insp, c[0], ctx.func("Frontend." + nm), "lcd_warning") if c else None
+        ctx.check(eff == C.CT("%s.timed_out" % gname), "R2", "%s(lcd_warning=<graph>.timed_out)" % nm, insp.where(),
+                  "%s receives lcd_warning=%s" % (nm, eff), insp.qname, "%s lcd_warning" % nm)
     ft = ctx.func("Frontend._user_warnings_footer")
     # the footer as a function of the flag: folded for lcd_warning = True / False (the function only concatenates constants)
     from .. import consteval
@@ -234,11 +335,13 @@ def run(ctx):
     okk = False
     for k in kills:
         l = C.enclosing_loop(k)
-        if isinstance(l, ast.For) and U(l.iter) == plist and any(n in l.body or C.in_subtree(l, p) for p in polls for n in [l]):
+        if isinstance(l, ast.For) and U(l.iter) == plist and (any(n in l.body or C.in_subtree(l, p) for p in polls for n in [l])
+                                                                or any(cfg.dominates(s_, l) for s_ in sets)):
             alive = any(p2 and "is_alive()" in U(e) for e, p2 in C.facts_at(k, stop=l))
             j = [s for s in l.body if U(s) == "%s.join()" % U(l.target)]
             order = bool(j) and cfg.reachable(k, j[0], within=l) and not cfg.reachable(j[0], k, within=l)
-            in_else = any(l in p.orelse for p in polls)
+            # (on the time-out path: the exhaustion branch of `while <clock test>: .. else:`, or after timed_out was set)
+            in_else = any(l in p.orelse for p in polls) or any(cfg.dominates(s_, l) for s_ in sets)
             uncatchable = ("SIGKILL" in U(k) and pm.call_name(k) == "os.kill") or (
                 isinstance(k.func, ast.Attribute) and k.func.attr == "kill" and pm.call_name(k) != "os.kill")
             if alive and order and in_else and not uncatchable:
@@ -330,11 +433,8 @@ def run(ctx):
         if isinstance(st, ast.For) and C.in_subtree(c, st.iter):
             # loop consuming the generator: a deadline test in every iteration that leaves the loop
             for n in st.body:
-                if isinstance(n, ast.If) and "time.time()" in U(n.test) and tmo in U(n.test) and any(
-                        isinstance(x, ast.Break) for x in n.body):
-                    parts = {U(v) for v in n.test.values} if isinstance(n.test, ast.BoolOp) and isinstance(n.test.op, ast.And) else {U(n.test)}
-                    if all(("time.time()" in p_) or p_ == "%s != -1" % tmo for p_ in parts):
-                        ok = True
+                if isinstance(n, ast.If) and any(isinstance(x, ast.Break) for x in n.body) and _is_timeout_test(n.test, n):
+                    ok = True
         only_untimed = any(p2 and U(e) == "%s == -1" % tmo for e, p2 in C.facts_at(c))
         if ok and not only_untimed:
             # the deadline is only tested when the generator yields: it must not be able to search for long without yielding.
